@@ -274,9 +274,9 @@ Proof.
 Qed.
 
 Theorem apply_term_ok n c t S : qs_ok n (t_factors t) -> nodupb (map snd (t_factors t)) = true ->
-  wfm (N2 n) c S -> apply_term n t S = mmul ZK (term_op n t) S.
+  wfm (N2 n) c S -> apply_term_prefix n t S = mmul ZK (term_op n t) S.
 Proof.
-  intros Hq Hd HS. unfold apply_term, term_op, mono_op. cbn [fst snd].
+  intros Hq Hd HS. unfold apply_term_prefix, term_op, mono_op. cbn [fst snd].
   rewrite (fold_apply n c) by assumption. rewrite (mscale_mmul_l ZK ZL). f_equal. f_equal.
   rewrite !prod_mk; [|exact Hq|intros f Hf; apply Hq; now apply in_rev].
   apply mk_ext. intros j _. rewrite pq_rev, rev_short; [reflexivity|now apply pq_short].
@@ -284,9 +284,9 @@ Qed.
 
 (* with the repair (factors applied last-to-first) no hypothesis on the factors is needed *)
 Theorem apply_term_fixed_ok n c t S : wfm (N2 n) c S ->
-  apply_term_fixed n t S = mmul ZK (term_op n t) S.
+  apply_term n t S = mmul ZK (term_op n t) S.
 Proof.
-  intros HS. unfold apply_term_fixed, term_op, mono_op. cbn [fst snd].
+  intros HS. unfold apply_term, term_op, mono_op. cbn [fst snd].
   rewrite (mscale_mmul_l ZK ZL). f_equal.
   induction (t_factors t) as [|f fs IH]; cbn [fold_right map mprod].
   - symmetry. now apply (idl n c).
@@ -312,10 +312,10 @@ Proof. unfold term_op, mono_op. apply mscale_wf, mprod_wf, Forall_sym_wf. Qed.
 Theorem apply_gates_ok n c tc S :
   (forall t, In t (fst tc) -> qs_ok n (t_factors t)) -> one_factor_per_qubit (fst tc) = true ->
   wfm (N2 n) c S -> (fst tc <> [] \/ snd tc <> zi0) ->
-  apply_gates n tc S = mmul ZK (terms_prod_matrix n tc) S.
+  apply_gates_prefix n tc S = mmul ZK (terms_prod_matrix n tc) S.
 Proof.
-  intros Hq Hd HS Hne. unfold apply_gates, terms_prod_matrix.
-  assert (E : map (fun t => apply_term n t S) (fst tc) = map (fun A => mmul ZK A S) (map (term_op n) (fst tc))).
+  intros Hq Hd HS Hne. unfold apply_gates_prefix, terms_prod_matrix.
+  assert (E : map (fun t => apply_term_prefix n t S) (fst tc) = map (fun A => mmul ZK A S) (map (term_op n) (fst tc))).
   { rewrite map_map. apply map_ext_in. intros t Ht. apply (apply_term_ok n c); [now apply Hq| |exact HS].
     unfold one_factor_per_qubit in Hd. rewrite forallb_forall in Hd. now apply Hd. }
   rewrite E, <- (mmul_msum_l ZK ZL), (mmul_madd_l ZK ZL), (mscale_mmul_l ZK ZL), (idl n c) by exact HS.
@@ -328,10 +328,10 @@ Proof.
 Qed.
 
 Theorem apply_gates_fixed_ok n c tc S : wfm (N2 n) c S -> (fst tc <> [] \/ snd tc <> zi0) ->
-  apply_gates_fixed n tc S = mmul ZK (terms_prod_matrix n tc) S.
+  apply_gates n tc S = mmul ZK (terms_prod_matrix n tc) S.
 Proof.
-  intros HS Hne. unfold apply_gates_fixed, terms_prod_matrix.
-  assert (E : map (fun t => apply_term_fixed n t S) (fst tc) = map (fun A => mmul ZK A S) (map (term_op n) (fst tc))).
+  intros HS Hne. unfold apply_gates, terms_prod_matrix.
+  assert (E : map (fun t => apply_term n t S) (fst tc) = map (fun A => mmul ZK A S) (map (term_op n) (fst tc))).
   { rewrite map_map. apply map_ext. intros t. now apply (apply_term_fixed_ok n c). }
   rewrite E, <- (mmul_msum_l ZK ZL), (mmul_madd_l ZK ZL), (mscale_mmul_l ZK ZL), (idl n c) by exact HS.
   destruct (zi_is0 (snd tc)) eqn:Z; [|reflexivity].
